@@ -59,6 +59,29 @@ def gen_mutants():
     return "\n".join(out)
 
 
+def _short(t, n=260):
+    t = " ".join(str(t or "").replace("|", "/").split())
+    return t if len(t) <= n else t[:n - 1].rsplit(" ", 1)[0] + " ..."
+
+
+def gen_benign():
+    root = os.path.join(VERIF, "benign")
+    out = ["| patch | checks that must stay silent | what it does |", "|---|---|---|"]
+    if os.path.isdir(root):
+        for f in sorted(os.listdir(root)):
+            if not f.endswith(".patch"):
+                continue
+            sil = about = ""
+            with open(os.path.join(root, f)) as fh:
+                for l in fh:
+                    if l.startswith("# silent:"):
+                        sil = l.split(":", 1)[1].strip()
+                    elif l.startswith("# about:"):
+                        about = l.split(":", 1)[1].strip()
+            out.append("| %s | %s | %s |" % (f.replace(".patch", ""), sil, about.replace("|", "/")))
+    return "\n".join(out)
+
+
 def gen_seeded():
     root = os.path.join(VERIF, "seeded")
     out = ["| id | property | what the change does | needs to manifest | static verdict | rules that report it |", "|---|---|---|---|---|---|"]
@@ -70,12 +93,12 @@ def gen_seeded():
             with open(mp) as f:
                 m = json.load(f)
             out.append("| %s | %s | %s | %s | %s | %s |" % (
-                n, m.get("property"), (m.get("summary") or "").replace("|", "/"), (m.get("trigger") or "").replace("|", "/"),
+                n, m.get("property"), _short(m.get("summary")), _short(m.get("trigger")),
                 m.get("static_verdict", "?"), ", ".join(m.get("reported_keys") or m.get("caught_by") or []) or (m.get("why_not") or "")))
     return "\n".join(out)
 
 
-GENS = {"rules": gen_rules, "findings": gen_findings, "mutants": gen_mutants, "seeded": gen_seeded}
+GENS = {"benign": gen_benign, "rules": gen_rules, "findings": gen_findings, "mutants": gen_mutants, "seeded": gen_seeded}
 
 
 def main():
